@@ -162,6 +162,13 @@ def gen_metadata(r, ids, kind, allow_empty_text=True):
     else:
         kinds = [kind]
     used = set()
+    if kind == 'multi' and r.random() < .06:
+        # many categories (more than ten)
+        kinds = [r.choice(['text', 'int', 'float', 'bool'])
+                 for _ in range(r.randint(11, 13))]
+        for q, k in enumerate(kinds):
+            cats.append(('cat%02d' % q if q % 2 else 'Cat %d/x' % q, k))
+        kinds = []
     for k in kinds:
         if k == 'taxonomy':
             name = r.choice(['taxonomy', 'collapsed_ids'])
@@ -191,7 +198,11 @@ def gen_metadata(r, ids, kind, allow_empty_text=True):
                 d[name] = r.randint(0, 14) if (not md or r.random() < .5) \
                     else r.choice([6.5, 7.25, 0.125, 1e-3, 99.75])
             elif k == 'taxonomy':
-                d[name] = [r.choice(_TAXA) for _ in range(r.randint(1, 4))]
+                # mostly short lineages; now and then one with more than ten
+                # levels (two-digit positions)
+                ln = r.randint(1, 4) if r.random() < .93 else r.randint(11,
+                                                                        14)
+                d[name] = [r.choice(_TAXA) for _ in range(ln)]
         md.append(d)
     return md
 
@@ -265,7 +276,13 @@ def gen_spec(r, max_n=6, max_m=6, id_classes=None, value_classes=None,
     """A random table spec; records the generator classes it belongs to."""
     if shape is None:
         pick = r.random()
-        if pick > .955 and max_n >= 5 and max_m >= 5:
+        if pick > .992 and max_n >= 5 and max_m >= 5:
+            # rare: one axis beyond 256 ids (one-byte positions, >2-digit
+            # indices), the other tiny
+            n, m = r.randint(1, 4), r.randint(257, 400)
+            if r.random() < .5:
+                n, m = m, n
+        elif pick > .955 and max_n >= 5 and max_m >= 5:
             # occasional medium / large axes: mechanisms that depend on the
             # number of ids (hash-table growth, multi-digit positions,
             # width of id arrays) are invisible on 7x7 tables
@@ -305,7 +322,7 @@ def gen_spec(r, max_n=6, max_m=6, id_classes=None, value_classes=None,
     obs_md = gen_metadata(r, obs_ids, ok, allow_empty_text)
     samp_md = gen_metadata(r, samp_ids, sk, allow_empty_text)
     ttype = r.choice(TABLE_TYPES + [None, None]) if types else None
-    classes = {'shape': '%dx%d' % (n, m), 'size': 'big' if max(n, m) > 7
+    classes = {'shape': '%dx%d' % (n, m), 'size': 'wide' if max(n, m) > 256 else 'big' if max(n, m) > 7
                else 'small', 'ids_obs': idc_o, 'ids_samp': idc_s,
                'values': vclass, 'density': dens, 'force': force,
                'md_obs': ok, 'md_samp': sk,
